@@ -43,6 +43,10 @@ def reeval_rules(eng: Engine, ck: Check, rule: str, constructs: Optional[set] = 
     for n in walk_with_lambdas(ms.node):
         if isinstance(n, ast.Compare) and isinstance(n.ops[0], ast.NotIn) and mentions_attr(n.left, 'state'):
             skipped = enum_members_in(n.comparators[0])
+        # the same population as guard clauses: `if <state> in (..): continue` / `if <state> == X: continue`
+        if isinstance(n, ast.If) and len(n.body) == 1 and isinstance(n.body[0], ast.Continue) and not n.orelse and isinstance(n.test, ast.Compare) and \
+                len(n.test.ops) == 1 and isinstance(n.test.ops[0], (ast.In, ast.Eq)) and mentions_attr(n.test.left, 'state'):
+            skipped = skipped | enum_members_in(n.test.comparators[0])
     ob(ms, ms.node, 'every upload except COMPLETE and FAILED ones is re-evaluated', skipped == {'COMPLETE', 'FAILED'} and
           'is_upload()' in src, f'skipped states: {sorted(skipped)}', construct='reeval population')
     conds = None
